@@ -20,9 +20,15 @@
 (*      microsecond, 4 microseconds per day, a time.Duration of 26 ticks),  *)
 (*      so that floor / truncation / saturation / wrap-around are real      *)
 (*      computations TLC checks against the declarative normal form;        *)
-(*  (c) deserializeParams: the wrapped-request unwrap, the Schema.Equal     *)
-(*      gate (order, names, types, nullability; metadata ignored), per      *)
-(*      field null/default handling.                                        *)
+(*  (c) deserializeParams: the wrapped-request unwrap (taken only when the  *)
+(*      batch's ONLY column is a binary column named "request" with a       *)
+(*      non-null, non-empty value that starts an IPC stream), the           *)
+(*      Schema.Equal gate (order, names, types, nullability; metadata       *)
+(*      ignored), per field null/default handling.  A column named          *)
+(*      "request" is otherwise an ordinary column: structs may declare one  *)
+(*      next to other fields and batches may carry one next to the declared *)
+(*      columns, with anything in it (garbage, nothing, a null, an IPC      *)
+(*      stream of a batch that would bind).                                 *)
 (*                                                                          *)
 (* CONSTANT Variant selects which code is modelled:                         *)
 (*   "pinned" = the tree as found (DESIGN 8: timestampToTime multiplies     *)
@@ -51,7 +57,9 @@ CONSTANTS
     Kinds,       \* C07: palette of parameter field kinds
     MaxFields,   \* C07: declared structs have 1..MaxFields fields
     Vias,        \* C07: subset of {"direct", "pipe", "http"}
-    Witness      \* C07: TRUE = emit one behaviour per class signature
+    Witness,     \* C07: TRUE = emit one behaviour per class signature
+    ReqPayloads  \* C07: what a binary column named "request" carries, subset of AllReqPayloads
+                 \*      ({} = no batch gets such a column added and no struct declares one)
 
 VARIABLES
     phase,       \* "idle" | "derived" | "declared" | "done"
@@ -590,29 +598,50 @@ KindField(id) ==
       [] id = "pbd" -> [t |-> Ptr(K("bool")),    tag |-> [NoTag EXCEPT !.def = "bool"]]
       \* a kind setFieldFromString does not parse (outside the property's family)
       [] id = "i32d" -> [t |-> K("int32"), tag |-> [NoTag EXCEPT !.def = "int"]]
+      \* fields whose wire name is "request" (ReqKinds): the name the decoder looks for
+      \* in the wrapped-request shape, legitimately declared next to other fields
+      [] id = "rq"  -> [t |-> Bytes,        tag |-> NoTag]
+      [] id = "rqn" -> [t |-> Bytes,        tag |-> [NoTag EXCEPT !.nullable = TRUE]]
+      [] id = "rql" -> [t |-> Bytes,        tag |-> Tag("large_binary")]
+      [] id = "rqs" -> [t |-> K("string"),  tag |-> NoTag]
 
 AllKinds == {"s", "i", "f", "b", "y", "e", "i32", "l", "ts", "ps", "pi", "pf", "pb", "ns",
              "sd", "id", "fd", "bd", "nsd", "nid", "nfd", "nbd", "psd", "pid", "pfd", "pbd"}
 
+ReqKinds == {"rq", "rqn", "rql", "rqs"}
 FieldName(i) == IF i = 1 THEN "p1" ELSE IF i = 2 THEN "p2" ELSE "p3"
+\* wire name of the i-th field of a declared struct
+NameOf(ks, i) == IF ks[i] \in ReqKinds THEN "request" ELSE FieldName(i)
 
 \* declared struct = sequence of kind ids; its fields and derived schema
-DeclFields(ks) == [i \in 1 .. Len(ks) |-> Fld(FieldName(i), KindField(ks[i]).t, KindField(ks[i]).tag)]
+DeclFields(ks) == [i \in 1 .. Len(ks) |-> Fld(NameOf(ks, i), KindField(ks[i]).t, KindField(ks[i]).tag)]
 Col(name, a) == [name |-> name, type |-> a.type, nullable |-> a.nullable]
 DeclSchema(ks) ==
-    [i \in 1 .. Len(ks) |-> Col(FieldName(i), ArrowOf(KindField(ks[i]).t, KindField(ks[i]).tag, 0))]
+    [i \in 1 .. Len(ks) |-> Col(NameOf(ks, i), ArrowOf(KindField(ks[i]).t, KindField(ks[i]).tag, 0))]
+
+\* the shape deserializeParams reserves: the ONLY column, named "request", binary
+IsWrappedShape(schema) ==
+    Len(schema) = 1 /\ schema[1].name = "request" /\ schema[1].type = "binary"
+
+\* wire names are unique within a struct; a lone binary field named "request" is the
+\* reserved shape and outside the property's family of structs
+WellNamed(ks) ==
+    /\ Cardinality({i \in 1 .. Len(ks) : ks[i] \in ReqKinds}) <= 1
+    /\ ~IsWrappedShape(DeclSchema(ks))
 
 \* (explicit tuples: TLC cannot spill lazily represented function values to disk)
-Structs == {<<a>> : a \in Kinds}
+Structs == {ks \in {<<a>> : a \in Kinds}
            \cup (IF MaxFields >= 2 THEN {<<a, b>> : a \in Kinds, b \in Kinds} ELSE {})
            \cup (IF MaxFields >= 3 THEN {<<a, b, c>> : a \in Kinds, b \in Kinds, c \in Kinds} ELSE {})
+           : WellNamed(ks)}
 
 \* structs that exist as static Go types in the harness (full dispatch needs a
 \* compile-time type for the registration generics)
 StaticStructs ==
     { <<"s">>, <<"i", "s">>, <<"ps", "i", "b">>, <<"sd", "id">>, <<"nsd", "nid", "nbd">>,
       <<"psd">>, <<"pid", "pfd", "pbd">>, <<"nfd", "f">>, <<"y", "e", "i32">>,
-      <<"fd", "bd", "s">>, <<"l", "ts">>, <<"pi", "psd">> }
+      <<"fd", "bd", "s">>, <<"l", "ts">>, <<"pi", "psd">>,
+      <<"rq", "i">>, <<"s", "rqn">>, <<"rqs">>, <<"id", "rq", "ps">>, <<"rql", "s">> }
 
 \* --- batches: a relation to the declared schema generates the batch schema ------
 RemoveAt(s, i) == SubSeq(s, 1, i - 1) \o SubSeq(s, i + 1, Len(s))
@@ -634,6 +663,7 @@ Retype(ty, how) ==
     ELSE IF ty = "utf8" THEN "int64" ELSE "utf8"
 
 ExtraCol(name) == [name |-> name, type |-> "int64", nullable |-> FALSE]
+ReqCol(nullable) == [name |-> "request", type |-> "binary", nullable |-> nullable]
 
 \* perturbations: [rel, pos, how]
 Perturbations(n) ==
@@ -644,20 +674,36 @@ Perturbations(n) ==
     \cup {[rel |-> "retyped", pos |-> i, how |-> h] : i \in 1 .. n, h \in {"near", "far"}}
     \cup {[rel |-> "nullflip", pos |-> i, how |-> "-"] : i \in 1 .. n}
     \cup {[rel |-> "renamed", pos |-> i, how |-> h] : i \in 1 .. n, h \in {"suffix", "case"}}
+    \* a binary column named "request" next to / instead of the declared columns
+    \cup (IF ReqPayloads = {} THEN {} ELSE
+            {[rel |-> "widened", pos |-> 0, how |-> h] : h \in {"req_front", "req_end", "req_end_n"}}
+            \cup {[rel |-> "replaced", pos |-> i, how |-> "request"] : i \in 1 .. n}
+            \cup {[rel |-> "renamed", pos |-> i, how |-> "to_request"] : i \in 1 .. n})
 
 BatchSchema(D, pt) ==
     CASE pt.rel = "equal" -> D
       [] pt.rel = "reordered" -> Permute(D, PermSeq(pt.how))
       [] pt.rel = "narrowed" -> RemoveAt(D, pt.pos)
       [] pt.rel = "widened" ->
-            IF pt.how = "front" THEN <<ExtraCol("extra")>> \o D
-            ELSE IF pt.how = "end" THEN D \o <<ExtraCol("extra")>>
-            ELSE D \o <<ExtraCol(D[1].name)>>
+           (CASE pt.how = "front" -> <<ExtraCol("extra")>> \o D
+              [] pt.how = "end" -> D \o <<ExtraCol("extra")>>
+              [] pt.how = "dup" -> D \o <<ExtraCol(D[1].name)>>
+              [] pt.how = "req_front" -> <<ReqCol(FALSE)>> \o D
+              [] pt.how = "req_end" -> D \o <<ReqCol(FALSE)>>
+              [] pt.how = "req_end_n" -> D \o <<ReqCol(TRUE)>>)
+      [] pt.rel = "replaced" -> [D EXCEPT ![pt.pos] = ReqCol(FALSE)]
       [] pt.rel = "retyped" -> [D EXCEPT ![pt.pos].type = Retype(@, pt.how)]
       [] pt.rel = "nullflip" -> [D EXCEPT ![pt.pos].nullable = ~@]
       [] pt.rel = "renamed" ->
             [D EXCEPT ![pt.pos].name = IF pt.how = "suffix" THEN @ \o "_x"
+                                       ELSE IF pt.how = "to_request" THEN "request"
+                                       ELSE IF @ = "request" THEN "Request"
                                        ELSE IF @ = "p1" THEN "P1" ELSE IF @ = "p2" THEN "P2" ELSE "P3"]
+
+\* is the perturbation a perturbation (the generated schema is not the declared one)?
+Applies(D, pt) ==
+    /\ (pt.rel = "replaced") => D[pt.pos] # ReqCol(FALSE)
+    /\ (pt.how = "to_request") => D[pt.pos].name # "request"
 
 \* arrow.Schema.Equal: same number of fields and, position by position, the same
 \* name, type and nullability (schema metadata is not compared)
@@ -679,8 +725,49 @@ FieldOutcome(f, cell) ==
         ELSE "default"
     ELSE IF f.t.k = "ptr" THEN "nil" ELSE "zero"                   \* left at the zero value
 
-\* deserializeParams on an unwrapped batch
-BindModel(ks, schema, cells) ==
+\* --- what a binary column named "request" carries --------------------------------
+\*   garbage      non-empty bytes that do not start an IPC stream (junk behind a small
+\*                length prefix, a few text bytes, an IPC stream cut inside its schema)
+\*   empty        a zero-length value           null   a null cell
+\*   ipc_equal    an IPC stream of one batch equal to the declared schema, all values
+\*                (values differ from the outer batch's; its own "request" column, when
+\*                the declaration has one, is empty: the stream would bind on its own)
+\*   ipc_equal_g  the same with garbage in the embedded batch's own "request" column
+\*   ipc_retyped  an IPC stream of one batch whose first column has an alien type
+\*   ipc_nobatch  an IPC stream of the declared schema without any batch
+\*   ipc_rel      (BindWrapped only) an IPC stream of the batch a relation generates
+AllReqPayloads == {"garbage", "empty", "null", "ipc_equal", "ipc_equal_g", "ipc_retyped", "ipc_nobatch"}
+ASSUME ReqPayloads \subseteq AllReqPayloads
+
+\* the column that carries a payload: named "request", (large) binary
+IsPayloadCol(c) == c.name = "request" /\ c.type \in {"binary", "large_binary"}
+HasPayloadCol(schema) == \E i \in 1 .. Len(schema) : IsPayloadCol(schema[i])
+
+NoPayload == [c |-> "-", inner |-> <<>>, ireq |-> "-"]
+\* payload record: class, schema of the embedded batch, class of the embedded batch's
+\* own payload column
+PayloadOver(c, inner, g) ==
+    [c |-> c, inner |-> inner,
+     ireq |-> IF HasPayloadCol(inner) THEN (IF g THEN "garbage" ELSE "empty") ELSE "-"]
+Payload(D, c) ==
+    CASE c \in {"ipc_equal", "ipc_nobatch"} -> PayloadOver(c, D, FALSE)
+      [] c = "ipc_equal_g" -> PayloadOver(c, D, TRUE)
+      [] c = "ipc_retyped" -> PayloadOver(c, [D EXCEPT ![1].type = Retype(@, "far")], FALSE)
+      [] OTHER -> [c |-> c, inner |-> <<>>, ireq |-> "-"]
+
+\* payload classes offered for a batch: none without a payload column; a declared
+\* "request" field's null comes from the cell pattern, not from the payload
+ReqChoices(ks, pt, schema, cells) ==
+    IF ~HasPayloadCol(schema) THEN {"-"}
+    ELSE IF pt.rel = "equal"
+         THEN (IF \E i \in 1 .. Len(ks) : IsPayloadCol(schema[i]) /\ cells[i] = "null" THEN {"-"}
+               ELSE ReqPayloads \ {"null"})
+    ELSE {c \in ReqPayloads : c = "ipc_equal_g" => HasPayloadCol(DeclSchema(ks))}
+
+AllVal(n) == [i \in 1 .. n |-> "val"]
+
+\* deserializeParams behind the unwrap: the Schema.Equal gate and the field loop
+BindPlain(ks, schema, cells) ==
     LET D == DeclSchema(ks)
         F == DeclFields(ks) IN
     IF ~SchemaEqual(schema, D)
@@ -691,6 +778,21 @@ BindModel(ks, schema, cells) ==
          ELSE IF \E i \in 1 .. Len(ks) : outs[i] = "ERROR"
          THEN [bound |-> FALSE, fields |-> <<>>, outcome |-> "default_error"]
          ELSE [bound |-> TRUE, fields |-> outs, outcome |-> "bound"]
+
+\* deserializeParams: "if batch.NumCols() == 1 && ColumnName(0) == "request" && type
+\* BINARY", a non-null, non-empty value is opened as an IPC stream; its first batch,
+\* when there is one, is deserialized INSTEAD (recursively); a stream without a
+\* batch, an empty or a null value fall through to the gate with the outer batch.
+\* Any other batch -- a "request" column among others included -- goes to the gate.
+RECURSIVE BindModel(_, _, _, _)
+BindModel(ks, schema, cells, pl) ==
+    IF IsWrappedShape(schema) /\ pl.c \notin {"null", "empty", "-"}
+    THEN IF pl.c = "garbage"
+         THEN [bound |-> FALSE, fields |-> <<>>, outcome |-> "unwrap_error"]   \* ipc.NewReader fails
+         ELSE IF pl.c = "ipc_nobatch" THEN BindPlain(ks, schema, cells)        \* Next() = false
+         ELSE BindModel(ks, pl.inner, AllVal(Len(pl.inner)),
+                        [c |-> pl.ireq, inner |-> <<>>, ireq |-> "-"])
+    ELSE BindPlain(ks, schema, cells)
 
 \* cells offered: for an equal batch every null pattern, otherwise all values
 CellPatterns(n, rel) ==
@@ -762,11 +864,25 @@ Declare(ks) ==
 CellStr(cells) ==
     (IF Len(cells) >= 1 THEN cells[1] ELSE "") \o (IF Len(cells) >= 2 THEN "," \o cells[2] ELSE "")
     \o (IF Len(cells) >= 3 THEN "," \o cells[3] ELSE "")
-BindSig(ks, pt, cells, via, focus) ==
+\* where the declaration has its "request" field, and of which kind
+ReqPos(ks) == IF \A i \in 1 .. Len(ks) : ks[i] \notin ReqKinds THEN 0
+              ELSE CHOOSE i \in 1 .. Len(ks) : ks[i] \in ReqKinds
+\* Three families of classes: (1) no "request" anywhere: path, relation, variant,
+\* arity, position, kind there (and the null pattern of an equal batch); (2) the
+\* struct declares a "request" field: its kind and position, whether the perturbation
+\* hits it, the payload; (3) a payload column only in the batch: as (1) plus the payload.
+BindSig(ks, pt, cells, via, focus, c) ==
     LET n == Len(ks)
-        at == IF pt.rel = "equal" THEN focus ELSE IF pt.pos > 0 THEN pt.pos ELSE 1 IN
-    via \o "|" \o pt.rel \o "|" \o pt.how \o "|" \o ToString(n) \o "|" \o ToString(at) \o "|" \o ks[at]
-    \o (IF pt.rel = "equal" THEN "|" \o CellStr(cells) ELSE "")
+        r == ReqPos(ks)
+        at == IF pt.rel = "equal" THEN focus ELSE IF pt.pos > 0 THEN pt.pos ELSE 1
+        head == via \o "|" \o pt.rel \o "|" \o pt.how \o "|" \o ToString(n) \o "|" IN
+    IF r = 0
+    THEN head \o ToString(at) \o "|" \o ks[at]
+         \o (IF pt.rel = "equal" THEN "|" \o CellStr(cells) ELSE "")
+         \o (IF c = "-" THEN "" ELSE "|" \o c)
+    ELSE head \o ks[r] \o "@" \o ToString(r) \o "|"
+         \o (IF pt.pos = 0 THEN "-" ELSE IF pt.pos = r THEN "hit" ELSE "off")
+         \o (IF pt.rel = "equal" THEN "|" \o CellStr(cells) ELSE "") \o "|" \o c
 
 \* which kinds of null a batch carries: P = into a pointer field with default=, D = into
 \* a non-pointer field with default=, N = pointer without default, Z = non-pointer
@@ -781,47 +897,58 @@ NullFlags(ks, cells) ==
     IN IF fl = "" THEN "-" ELSE fl
 
 \* deserializeParams (direct) or a full unary dispatch (pipe / http)
-Bind(pt, cells, via, focus) ==
+\* A batch in the reserved shape (the only column a binary "request") is the
+\* tolerated second form and belongs to BindWrapped, whatever relation generated it.
+Bind(pt, cells, via, focus, c) ==
     /\ phase = "declared" /\ decl.part = "C07"
     /\ (pt.rel # "equal") => focus = 1
     /\ via \in Vias /\ (via # "direct" => decl.kinds \in StaticStructs)
     /\ "i32d" \notin {decl.kinds[i] : i \in 1 .. Len(decl.kinds)}
+    \* Applies(D, pt), ~IsWrappedShape(batch schema) and c \in ReqChoices(..): see Next
     /\ LET ks == decl.kinds
            schema == BatchSchema(DeclSchema(ks), pt)
-           r == BindModel(ks, schema, cells)
+           pl == Payload(DeclSchema(ks), c)
+           r == BindModel(ks, schema, cells, pl)
            base == [bound |-> r.bound, fields |-> Tup(r.fields), outcome |-> r.outcome]
            disp == [bound |-> r.bound, fields |-> Tup(r.fields), outcome |-> r.outcome,
                     etype |-> IF r.bound THEN "" ELSE IF r.outcome = "panic" THEN "PANIC" ELSE "TypeError",
                     calls |-> IF r.bound THEN 1 ELSE 0] IN
        /\ phase' = "done" /\ decl' = decl
-       /\ Record([a |-> "Bind", cls |-> via \o ":" \o pt.rel \o ":" \o NullFlags(ks, cells),
+       /\ Record([a |-> "Bind", cls |-> via \o ":" \o pt.rel \o ":" \o NullFlags(ks, cells)
+                                       \o (IF c = "-" THEN "" ELSE ":request=" \o c),
                   args |-> [rel |-> pt.rel, pos |-> pt.pos, how |-> pt.how, schema |-> Tup(schema),
-                            cells |-> Tup(cells), via |-> via, kinds |-> ks],
+                            cells |-> Tup(cells), via |-> via, kinds |-> ks,
+                            req |-> pl.c, inner |-> Tup(pl.inner), ireq |-> pl.ireq],
                   exp |-> IF via = "direct" THEN base ELSE disp],
-                 BindSig(ks, pt, cells, via, focus))
+                 BindSig(ks, pt, cells, via, focus, c))
 
 \* the tolerated second shape: one binary column "request" holding an IPC stream
-\* whose batch is then bound instead (outside the property's batch family)
-BindWrapped(pt) ==
+\* whose batch is then bound instead (outside the property's batch family); with
+\* any other payload the outer batch goes to the gate, or the stream fails to open
+BindWrapped(pt, c) ==
     /\ phase = "declared" /\ decl.part = "C07" /\ "direct" \in Vias
     /\ "i32d" \notin {decl.kinds[i] : i \in 1 .. Len(decl.kinds)}
     /\ pt.rel \in {"equal", "narrowed", "nullflip"}
+    /\ c \in {"ipc_rel"} \cup (ReqPayloads \cap {"garbage", "empty", "null", "ipc_nobatch"})
+    /\ (c # "ipc_rel") => pt.rel = "equal"
     /\ LET ks == decl.kinds
            inner == BatchSchema(DeclSchema(ks), pt)
-           cells == [i \in 1 .. Len(ks) |-> "val"]
-           r == BindModel(ks, inner, cells) IN
+           cells == [i \in 1 .. Len(inner) |-> "val"]
+           pl == IF c = "ipc_rel" THEN PayloadOver(c, inner, FALSE) ELSE Payload(DeclSchema(ks), c)
+           r == BindModel(ks, <<ReqCol(FALSE)>>, <<"val">>, pl) IN
        /\ phase' = "done" /\ decl' = decl
        /\ Record([a |-> "BindWrapped",
                   args |-> [rel |-> pt.rel, pos |-> pt.pos, how |-> pt.how, schema |-> Tup(inner),
-                            cells |-> Tup(cells), kinds |-> ks],
+                            cells |-> Tup(cells), kinds |-> ks,
+                            req |-> pl.c, inner |-> Tup(pl.inner), ireq |-> pl.ireq],
                   exp |-> [w_bound |-> r.bound, w_fields |-> Tup(r.fields)]],
-                 "wrapped|" \o pt.rel \o "|" \o ToString(Len(ks)))
+                 "wrapped|" \o pt.rel \o "|" \o ToString(Len(ks)) \o "|" \o c)
 
 \* a null for a default= field of a kind setFieldFromString does not parse
 BindOddDefault(cell) ==
     /\ phase = "declared" /\ decl.part = "C07" /\ "direct" \in Vias
     /\ decl.kinds = <<"i32d">>
-    /\ LET r == BindModel(decl.kinds, DeclSchema(decl.kinds), <<cell>>) IN
+    /\ LET r == BindModel(decl.kinds, DeclSchema(decl.kinds), <<cell>>, NoPayload) IN
        /\ phase' = "done" /\ decl' = decl
        /\ Record([a |-> "BindOddDefault",
                   args |-> [schema |-> Tup(DeclSchema(decl.kinds)), cells |-> <<cell>>, kinds |-> decl.kinds],
@@ -840,9 +967,15 @@ Next ==
     \/ \E v \in (IF phase = "derived" THEN ValsOf(decl.shape.leaf, decl.shape.wrap) ELSE {}) : RoundTrip(v)
     \/ \E ks \in (IF phase = "idle" /\ "C07" \in Parts THEN Structs \cup {<<"i32d">>} ELSE {}) : Declare(ks)
     \/ \E pt \in (IF phase = "declared" THEN Perturbations(Len(decl.kinds)) ELSE {}) :
-          \/ \E cells \in CellPatterns(Len(decl.kinds), pt.rel), via \in Vias, focus \in 1 .. Len(decl.kinds) :
-                Bind(pt, cells, via, focus)
-          \/ BindWrapped(pt)
+          \* (Bind's enabling conditions, hoisted: TLC evaluates a body per combination)
+          \/ /\ Applies(DeclSchema(decl.kinds), pt)
+             /\ ~IsWrappedShape(BatchSchema(DeclSchema(decl.kinds), pt))
+             /\ \E cells \in CellPatterns(Len(decl.kinds), pt.rel),
+                   via \in (IF decl.kinds \in StaticStructs THEN Vias ELSE Vias \cap {"direct"}),
+                   focus \in (IF pt.rel = "equal" THEN 1 .. Len(decl.kinds) ELSE {1}) :
+                   \E c \in ReqChoices(decl.kinds, pt, BatchSchema(DeclSchema(decl.kinds), pt), cells) :
+                        Bind(pt, cells, via, focus, c)
+          \/ \E c \in ReqPayloads \cup {"ipc_rel"} : BindWrapped(pt, c)
     \/ \E cell \in (IF phase = "declared" THEN {"val", "null"} ELSE {}) : BindOddDefault(cell)
 
 Spec == Init /\ [][Next]_vars
@@ -886,6 +1019,19 @@ ValuesAndDefaults ==
                 /\ (Last.args.cells[i] = "null" /\ f.tag.def # "none") => Last.exp.fields[i] = "default"
                 /\ (Last.args.cells[i] = "null" /\ f.tag.def = "none" /\ f.t.k = "ptr")
                         => Last.exp.fields[i] = "nil" ]_vars
+
+\* C07: a binary column named "request" is reserved only when it is the batch's only
+\* column.  Next to other columns -- declared by the struct or added to the batch --
+\* nothing it carries (garbage, nothing, a null, an IPC stream of a batch that would
+\* bind on its own) changes the decision or the values: the handler runs iff the OUTER
+\* batch is the declared schema, with exactly the values sent, the bytes included.
+RequestColumnIsOrdinary ==
+    [][ (Last.a = "Bind" /\ Last.args.req # "-") =>
+          /\ Last.exp.bound <=> Last.args.rel = "equal"
+          /\ Last.exp.outcome \in {"bound", "schema_mismatch"}
+          /\ Last.exp.bound =>
+                \A i \in 1 .. Len(Last.args.kinds) :
+                    (Last.args.cells[i] = "val") => Last.exp.fields[i] = "sent" ]_vars
 
 \* the type table is total on the palette and nullability follows pointer / option
 TypeTableSane ==
